@@ -1,5 +1,5 @@
 """C07: ASSD against a brute-force specification (bounded), incl. conformance of the assumed scipy contracts."""
-import itertools, random
+import os, itertools, random
 import numpy as np
 from spec import metrics as SM
 
@@ -113,6 +113,61 @@ def bounded(params):
                 bad = [f"raised {type(e).__name__}: {e}"[:160]]
             if bad and len(failures) < 5:
                 failures.append({"input": {"X": X.astype(int).tolist(), "Y": Y.astype(int).tolist()}, "problems": bad[:3], "replay_kind": "c07.assd"})
+    # history: a call with another connectivity must not change what later default calls compute (no state kept between calls)
+    from panoptica.metrics import Metric as _M
+    Xc = np.zeros((7, 7), bool); Xc[1:6, 1:6] = True; Xc[1:3, 1:3] = False   # concave corner: 4- and 8-connected borders differ
+    Yc = np.zeros((7, 7), bool); Yc[2:7, 2:7] = True
+    X3 = np.zeros((5, 5, 5), bool); X3[1:4, 1:4, 1:4] = True; X3[1, 1, 1] = False
+    Y3 = np.zeros((5, 5, 5), bool); Y3[2:5, 2:5, 2:5] = True
+    for A_, B_ in ((Xc, Yc), (X3, Y3)):
+        evals += 1
+        try:
+            want_ = SM.assd(SM.vox(A_), SM.vox(B_), A_.ndim)
+            # the state-dependence only shows if the FIRST call of the process uses another connectivity: run the sequence in a fresh interpreter too
+            first = float(_M.ASSD(A_, B_))
+            for conn in (2, A_.ndim):
+                _M.ASSD(reference_arr=A_, prediction_arr=B_, connectivity=conn)
+            again = float(_M.ASSD(A_, B_))
+            import subprocess, sys as _sys, json as _json
+            code = ("import json, numpy as np\nfrom panoptica.metrics import Metric\n"
+                    f"A = np.array({A_.astype(int).tolist()}, bool); B = np.array({B_.astype(int).tolist()}, bool)\n"
+                    f"Metric.ASSD(reference_arr=A, prediction_arr=B, connectivity={A_.ndim})\nprint(json.dumps(float(Metric.ASSD(A, B))))\n")
+            pr_ = subprocess.run([_sys.executable, "-W", "ignore", "-c", code], capture_output=True, text=True, timeout=120, env=dict(os.environ, PANOPTICA_CITATION_REMINDER="false"))
+            fresh_after = _json.loads(pr_.stdout.strip().splitlines()[-1]) if pr_.returncode == 0 and pr_.stdout.strip() else None
+            if fresh_after is None or not _close(fresh_after, want_):
+                first = first if fresh_after is None else first
+                hb0 = f"in a fresh process, a default ASSD call AFTER a call with connectivity={A_.ndim} returns {fresh_after}, brute force {want_}: state kept between calls" if fresh_after is not None else f"fresh-process run failed: {pr_.stderr[-160:]}"
+            else:
+                hb0 = None
+            hb = [hb0] if hb0 else []
+            if not _close(first, want_):
+                hb.append(f"ASSD={first} brute force {want_}")
+            if not _close(again, first):
+                hb.append(f"a default ASSD call returns {again} after calls with another connectivity, {first} before: state kept between calls")
+        except Exception as e:
+            hb = [f"raised {type(e).__name__}: {e}"[:160]]
+        if hb and len(failures) < 5:
+            failures.append({"input": {"X": A_.astype(int).tolist(), "Y": B_.astype(int).tolist(), "history": "default, connectivity=2/3, default"}, "problems": hb, "replay_kind": "c07.assd"})
+    # the evaluator's per-instance ASSD is the metric of exactly those masks (also in arrays with a singleton axis)
+    from .util import serial_pools as _sp
+    _sp()
+    from panoptica import Panoptica_Evaluator, InputType
+    for shape, ax in (((1, 6, 6), 0), ((6, 6, 1), 2), ((1, 9), 0), ((6, 6), None)):
+        ref_ = np.zeros(shape, np.uint8); pred_ = np.zeros(shape, np.uint8)
+        sl = lambda lo, hi: tuple(slice(None) if k == ax else slice(lo, hi) for k in range(len(shape)))
+        ref_[sl(0, 4)] = 1
+        pred_[sl(1, 6)] = 1
+        evals += 1
+        try:
+            ev_ = Panoptica_Evaluator(expected_input=InputType.MATCHED_INSTANCE, instance_metrics=[_M.DSC, _M.IOU, _M.ASSD], global_metrics=[])
+            res_ = ev_.evaluate(pred_.copy(), ref_.copy(), verbose=False)["ungrouped"][0]
+            got_ = float(res_.sq_assd)
+            want_ = SM.assd(SM.vox(ref_ == 1), SM.vox(pred_ == 1), len(shape))
+            eb = [] if _close(got_, want_) else [f"evaluator sq_assd={got_} but the ASSD of the two instance masks is {want_} (shape {shape})"]
+        except Exception as e:
+            eb = [f"raised {type(e).__name__}: {e}"[:160]]
+        if eb and len(failures) < 5:
+            failures.append({"input": {"pred": pred_.tolist(), "ref": ref_.tolist(), "through": "Panoptica_Evaluator (matched input)"}, "problems": eb, "replay_kind": "c07.assd"})
     # solid objects in arrays with a singleton axis (one-slice volume, one-column image): interior voxels are border voxels there
     for shape, ax in (((1, 6, 6), 0), ((6, 6, 1), 2), ((6, 1, 6), 1), ((1, 7), 0), ((7, 1), 1)):
         X, Y = np.zeros(shape, bool), np.zeros(shape, bool)
